@@ -231,9 +231,60 @@ def eocd_evaluate(ctx):
     for (line, want, site, tag, src), g in zip(EOCD, got):
         ctx.case(('eocd', line), nontrivial=True)
         if g != want:
-            ctx.fail('correspondence', 'zipfile._EndRecData vs endRecData', f'{tag}: every prefix',
-                     f'{site}: prefixes at which an end record is found: implementation `{want[:120]}`, model `{g[:120]}`', detail=dict(source=src))
+            ctx.fail('correspondence', site if ' vs ' in site else 'zipfile._EndRecData vs endRecData', f'{tag}: every prefix',
+                     f'{site}: prefixes at which it succeeds: implementation `{want[:120]}`, model `{g[:120]}`', detail=dict(source=src))
     del EOCD[:]
+
+
+
+def zip_prefix_opens(ctx, data, oracle, site, tag, spec):
+    """every prefix of a small file: does the archive OPEN (end record found, directory walked, every member read and
+    CRC-checked)?  zipfile vs the byte-level model `zipOpen (readDirBytes …)`"""
+    hits = []
+    for j in range(len(data) + 1):
+        try:
+            zf = zipfile.ZipFile(io.BytesIO(data[:j]))
+            for nm in zf.namelist():
+                zf.read(nm)
+            hits.append(j)
+        except Exception:  # noqa
+            pass
+    EOCD.append((f'zipreadall {F.hx(data)} {oracle}', ranges_of(hits), site, tag + ' (archive opens and every member reads)', F.emit(spec)))
+
+
+def ranges_of(hits):
+    out, cur = [], None
+    for j in hits:
+        if cur is not None and j == cur[1] + 1:
+            cur[1] = j
+        else:
+            if cur is not None:
+                out.append(f'{cur[0]}..{cur[1]}')
+            cur = [j, j]
+    if cur is not None:
+        out.append(f'{cur[0]}..{cur[1]}')
+    return ','.join(out) or '-'
+
+
+def npy_prefix_parses(ctx, blob, tag, spec):
+    """every prefix of every .npy member of a blob: numpy.lib.format.read_array vs parseNpy"""
+    from numpy.lib import format as npf
+    zf = zipfile.ZipFile(io.BytesIO(blob))
+    for name in zf.namelist():
+        b = zf.read(name)
+        hits = []
+        for j in range(len(b) + 1):
+            try:
+                npf.read_array(io.BytesIO(b[:j]), allow_pickle=False)
+                hits.append(j)
+            except Exception:  # noqa
+                pass
+        ctx.tick('npy member truncated: parses only complete' if hits == [len(b)] else f'npy member truncated: parses at {ranges_of(hits)} of {len(b)}')
+        if hits != [len(b)]:
+            ctx.fail('property', 'numpy.lib.format.read_array', f'{tag}: truncated .npy member',
+                     f'a proper prefix of member {name} parses as an array (prefix lengths {ranges_of(hits)} of {len(b)})',
+                     repro=F.PRELUDE + F.emit(spec) + "raise AssertionError('truncated npy member parsed')\n")
+        EOCD.append((f'npyparseall {F.hx(b)}', ranges_of(hits), 'numpy.lib.format.read_array vs parseNpy', f'{tag}: every prefix of member {name}', F.emit(spec)))
 
 
 def cqm_files(ctx, r, S, spec):
@@ -246,6 +297,8 @@ def cqm_files(ctx, r, S, spec):
     add_sweep(ctx, S, spec, 'cqm', m, data, kw, f'deccqmhdr {F.hx(text)} {F.hx(data)}', exact_to=hend, tag='cqm' + (' compressed' if compress else ''))
     if len(data) <= 6000:
         eocd_prefixes(ctx, data, 'ConstrainedQuadraticModel.from_file', 'cqm whole file', spec)
+    if len(data) <= 3000:
+        zip_prefix_opens(ctx, data, C9.zip_entries(data)[1], 'zipfile.ZipFile vs zipOpen(readDirBytes)', 'cqm whole file', spec)
 
 
 def dqm_files(ctx, r, S, spec):
@@ -264,6 +317,10 @@ def dqm_files(ctx, r, S, spec):
               exact_to=hend + 8, tag='dqm' + (' compressed' if compress else ''))
     if len(data) <= 6000:
         eocd_prefixes(ctx, data[hend + 8:hend + 8 + ln], 'DiscreteQuadraticModel.from_file', 'dqm npz blob', spec)
+    if ln <= 2500:
+        blob = data[hend + 8:hend + 8 + ln]
+        zip_prefix_opens(ctx, blob, C9.zip_entries(blob)[1], 'zipfile.ZipFile vs zipOpen(readDirBytes)', 'dqm npz blob', spec)
+        npy_prefix_parses(ctx, blob, 'dqm npz blob', spec)
 
 
 # ------------------------------------------------------------------ expression files and the raw loaders
